@@ -8,6 +8,7 @@ require (
 )
 
 require (
+	github.com/anishathalye/porcupine v1.3.0
 	golang.org/x/mod v0.22.0 // indirect
 	golang.org/x/sync v0.10.0 // indirect
 	golang.org/x/sys v0.29.0 // indirect
